@@ -63,6 +63,16 @@ func tokenFor(env *stateEnv, sel string) types.ZenonTokenStandard {
 		return unknownZ
 	case "none":
 		return types.ZeroTokenStandard
+	case "locked":
+		if env.HasEntries {
+			return env.Locked
+		}
+		return unknownZ
+	case "bridge-owned":
+		if env.BridgeTok != types.ZeroTokenStandard {
+			return env.BridgeTok
+		}
+		return unknownZ
 	}
 	panic("token selector " + sel)
 }
